@@ -222,6 +222,48 @@ def run(repo, rep, tier):
                         stop_thr.node.lineno,
                         'the listener thread %s is not shut down, closed and '
                         'joined before its fields are cleared' % thr)
+    # request threads: server_close() joins them only with the
+    # socketserver.ThreadingMixIn defaults (daemon_threads False,
+    # block_on_close True); they read self._ind_queue through
+    # do_POST -> _handle_indication, so they must have ended before the stop
+    # path releases the queue
+    mod = repo.module(LS)
+    mixins = [c for c in mod.classes.values()
+              if any('ThreadingMixIn' in norm(b) for b in c.node.bases)]
+    if not mixins:
+        raise AnalysisError('no socketserver.ThreadingMixIn server class in '
+                            'the listener module (request-thread join '
+                            'semantics unknown)')
+    safe = {'daemon_threads': False, 'block_on_close': True}
+    r2.sites += 1
+    bad = []
+    for n in ast.walk(mod.tree):
+        tg = []
+        if isinstance(n, ast.Assign):
+            tg = n.targets
+        elif isinstance(n, ast.AnnAssign) and n.value is not None:
+            tg = [n.target]
+        for t in tg:
+            name = t.id if isinstance(t, ast.Name) else (
+                t.attr if isinstance(t, ast.Attribute) else None)
+            if name in safe and not (isinstance(n.value, ast.Constant) and
+                                     n.value.value is safe[name]):
+                bad.append((n, name))
+    r2.ob(not bad, 'request-threads-joined',
+          {'server_classes': [c.name for c in mixins],
+           'requires': 'daemon_threads False and block_on_close True '
+                       '(ThreadingMixIn.server_close joins request threads)',
+           'overrides': [norm(n) for n, _ in bad]})
+    for n, name in bad:
+        rep.finding(r2, mixins[0].name, norm(n), 'request-threads-not-joined',
+                    LS, n.lineno,
+                    '%s: server_close() no longer waits for the request '
+                    'handler threads, so stop() drains and releases the '
+                    'indication queue while a request may still be in '
+                    '_handle_indication - the indication is acknowledged '
+                    'with a success response but never delivered, and '
+                    'stop() returns with a listener thread still running'
+                    % norm(n))
     calls = [norm(s) for s in stop.body if isinstance(s, ast.Expr)]
     ok = 'self._stop_listener_threads()' in calls and \
         'self._stop_indication_delivery()' in calls and \
